@@ -9,7 +9,7 @@ Require Import NixV.Base.Prelude NixV.Store.Db NixV.Store.DbOps NixV.Store.DbObs
 Import ListNotations.
 Local Open Scope string_scope.
 
-Definition rc_valid : behaviour := mkBeh true true true true true true true true true true true true true true true false true true true true.
+Definition rc_valid : behaviour := mkBeh true true true true true true true true true true true true true true true false true true true true true.
 
 Definition srunW (b : behaviour) (l : list op) : sess := srun wid wsan wunit b init_sess (map SOp l).
 
